@@ -234,8 +234,8 @@ MUTANTS = {
         'input_index.to_bytes(4, byteorder="little"', 'input_index.to_bytes(4, byteorder="big"'),
     "outpoint-big-endian": _m(
         "ledger.hsm2dongle.HSM2Dongle", "sign_authorized",
-        "OUTPOINT_VALUE_LENGTH,\n                    byteorder='little'",
-        "OUTPOINT_VALUE_LENGTH,\n                    byteorder='big'"),
+        "OUTPOINT_VALUE_LENGTH,\n byteorder='little', signed=False",
+        "OUTPOINT_VALUE_LENGTH,\n byteorder='big', signed=False"),
     "payload-length-includes-extradata": _m(
         "ledger.hsm2dongle.HSM2Dongle", "sign_authorized",
         "EXTRADATALENGTH_LENGTH + \\\n len(btc_tx_bytes)",
